@@ -71,6 +71,12 @@ extern "C" void h_bfd() {
     bfd.setSendCompleteCallback([] { complete_calls++; VP_ASSERT(B->send_buff_.readableSize() == 0 && n_wire == n_sent, "send-complete fires only when everything queued so far has been written");
         if (resend && !g_fair) { resend = false; unsigned char d[2] = { (*p_next_tx)++, (*p_next_tx)++ }; B->send(d, 2); for (int i = 0; i < 2 && n_sent < MAXS; i++) sent[n_sent++] = d[i]; } });
     unsigned char next_tx = 1, next_rx = 101; p_next_tx = &next_tx;
+#ifdef SHRINK_AT
+    unsigned shrink_at = SHRINK_AT;                                          // one solver run per position
+#else
+    unsigned shrink_at = nondet_uchar(); VP_ASSUME(shrink_at <= NSTEP);
+#endif
+         // after which step the application calls the housekeeping shrink of both queues (NSTEP: never)
     for (int k = 0; k < NSTEP; k++) {
         unsigned op = nondet_uchar(); VP_ASSUME(op <= 5);
         if (op == 0) { unsigned n = nondet_uchar(); VP_ASSUME(n >= 1 && n <= 3); unsigned char d[3];
@@ -81,6 +87,7 @@ extern "C" void h_bfd() {
         else if (op == 3) { if (rev->on && (n_deliv < n_peer || peer_closed)) rev->fire(event::FdEvent::kReadEvent); }   // descriptor readable
         else if (op == 4) { unsigned n = nondet_uchar(); VP_ASSUME(n >= 1 && n <= 3); if (!peer_closed) for (unsigned i = 0; i < n && n_peer < MAXS; i++) peer[n_peer++] = next_rx++; }
         else { peer_closed = true; }
+        if ((unsigned)k == shrink_at) { bfd.shrinkSendBuffer(); bfd.shrinkRecvBuffer(); }       // must not change the content or order of either queue
         check_tx(wev);
         VP_ASSERT(zero_calls <= 1 || true, "-");
     }
